@@ -1,3 +1,11 @@
 //! Safe-Rust verification hooks for this module (accessors/wrappers only; no logic).
 #![allow(missing_docs, unused_imports, dead_code)]
 use super::*;
+
+// ---- statime_h (C44/C45): manager from parts / access to its state cell
+pub fn manager_from_parts<M: StateMutex>(config: CsptpConfig, state: InternalState) -> CsptpManager<M> {
+    CsptpManager { config, state: M::new(state) }
+}
+pub fn manager_state<M>(m: &CsptpManager<M>) -> &M {
+    &m.state
+}
